@@ -53,24 +53,18 @@ def _history(draw, gen: int, max_ops: int):
     body = draw(st.lists(st.one_of(apiops.frame_ops(inst), apiops.frame_ops(inst), apiops.frame_ops(inst), sub, unsub),
                          min_size=3, max_size=max_ops))
     ops = first + body
-    # bias towards exact repeats and single-attribute changes
-    tweaks = draw(st.lists(st.tuples(st.integers(0, 1000), st.integers(0, 3), st.integers(0, 100)), max_size=8))
-    for r, how, v in tweaks:
+    # bias towards exact repeats and single-attribute changes: a copy of an earlier status frame is re-sent
+    # right after it, either verbatim or with exactly one field of one record changed to another defined value
+    tweaks = draw(st.lists(st.tuples(st.integers(0, 1000), st.integers(0, 5), st.integers(0, 100), st.integers(0, 1000)), max_size=10))
+    for r, how, v, w in tweaks:
         idx = [i for i, o in enumerate(ops) if o[0] in ("ac_status", "zone_status", "timer_status", "version")]
         if not idx:
             break
         i = idx[r % len(idx)]
         o = copy.deepcopy(ops[i])
-        if how >= 2 and o[0] in ("ac_status", "zone_status"):
+        if how >= 1 and o[0] in ("ac_status", "zone_status"):
             rec = o[1][v % len(o[1])]
-            if o[0] == "ac_status":
-                rec["spill"] = not rec["spill"] if how == 2 else rec["spill"]
-                if how == 3:
-                    rec["timer_set"] = not rec["timer_set"]   # not exposed by the API
-            else:
-                rec["percent"] = (rec["percent"] + 5) % 101 if how == 2 else rec["percent"]
-                if how == 3:
-                    rec["spill"] = not rec["spill"]
+            _mutate_one_field(gen, o[0], rec, w)
         ops.insert(i + 1, o)
     # resolve "unsubscribe_nth" against the subscriptions active at that point
     active, out = [], []
@@ -89,6 +83,51 @@ def _history(draw, gen: int, max_ops: int):
         else:
             out.append(o)
     return {"inst": inst, "state": state, "ops": out}
+
+
+_MODE_FAMILY = ["auto", "auto_heat", "auto_cool"]
+_IA_FAMILY = ["ia_quiet", "ia_low", "ia_medium", "ia_high", "ia_powerful", "ia_turbo"]
+
+
+def _mutate_one_field(gen, kind, rec, w):
+    """Change exactly one field of a status record to another defined value."""
+    if kind == "ac_status":
+        fields = ["power", "mode", "mode", "fan", "fan", "spill", "setpoint_raw", "temp_raw", "error_code", "timer_set"]
+        if gen == 5:
+            fields += ["bypass", "turbo"]
+        f = fields[w % len(fields)]
+        if f == "mode":
+            fam = _MODE_FAMILY if rec["mode"] in _MODE_FAMILY else ["auto", "heat", "dry", "fan", "cool", "auto_heat", "auto_cool"]
+            rec["mode"] = [m for m in fam if m != rec["mode"]][(w // 16) % (len(fam) - 1)]
+        elif f == "fan":
+            fam = _IA_FAMILY if (gen == 5 and rec["fan"] in _IA_FAMILY) else list(con.FANS4)
+            rec["fan"] = [x for x in fam if x != rec["fan"]][(w // 16) % (len(fam) - 1)]
+        elif f == "power":
+            opts = ["off", "on"] if gen == 4 else ["off", "on", "away_off", "away_on", "sleep"]
+            rec["power"] = [x for x in opts if x != rec["power"]][(w // 16) % (len(opts) - 1)]
+        elif f in ("spill", "timer_set", "bypass", "turbo"):
+            rec[f] = not rec[f]
+        elif f == "setpoint_raw":
+            rec[f] = (rec[f] + 1 + (w // 16) % 5) % (64 if gen == 4 else 251)
+        elif f == "temp_raw":
+            rec[f] = (rec[f] + 1 + (w // 16) % 50) % 2001
+        else:
+            rec["error_code"] = 0 if rec["error_code"] else 1 + (w // 16) % 100
+    else:
+        fields = ["power", "method", "percent", "setpoint_raw", "sensor", "temp_raw", "spill", "low_battery"]
+        f = fields[w % len(fields)]
+        if f == "power":
+            rec[f] = [x for x in ("off", "on", "turbo") if x != rec[f]][(w // 16) % 2]
+        elif f == "method":
+            rec[f] = "damper" if rec[f] == "temperature" else "temperature"
+        elif f == "percent":
+            rec[f] = (rec[f] + 5) % 101
+        elif f == "setpoint_raw":
+            rec[f] = ((rec[f] or 0) + 1 + (w // 16) % 5) % (64 if gen == 4 else 251)
+        elif f == "temp_raw":
+            rec[f] = ((rec[f] or 0) + 1 + (w // 16) % 50) % 2001
+        else:
+            rec[f] = not rec[f]
 
 
 def run_history(case, stats: Stats | None):
